@@ -4,21 +4,33 @@ def U(name, pkg, test, rule, quick, thorough, **kw):
     d.update(kw)
     return d
 
+def Q(checks, shards=4, timeout=600):
+    return dict(checks=checks, shards=shards, timeout=timeout)
+
+def T(checks, shards=16, timeout=3600):
+    return dict(checks=checks, shards=shards, timeout=timeout)
+
 HOOK_COMMITS = []
 
-# Properties not (yet) claimed; kept current by hand. Removed from here as soon as a check is registered.
+# Properties not (yet) claimed; a property leaves this table as soon as a check is registered in PROPS.
 NOT_CLAIMED = {k: "check not built yet in this session (work in progress; see DESIGN.md §5 for the planned oracle)" for k in
                ["C%02d" % i for i in range(1, 21)]}
 
-PROPS = {
- "C02": dict(
-  level="exploration",
+MODEL_TRUST = "harness/model (own bencode codec, SHA-1 from the Go standard library, flat array F) shares no code with rain"
+
+PROPS = {}
+
+def P(pid, **kw):
+    kw.setdefault("level", "exploration")
+    PROPS[pid] = kw
+
+P("C02",
   level_text="Bounded random exploration with shrinking: tens of thousands (quick) to millions (thorough) of generated torrent layouts "
              "are pushed through rain's parser, allocator, piece mapper, block calculator, reader/writer and verifier and every result is "
              "compared with an independent flat-byte-array model in both directions (nothing missing, nothing extra). Exploration is the right level: "
              "the functions are pure and cheap, the input space (file vectors x piece lengths) is unbounded, and the defects live at coincidences "
              "of boundaries that a biased generator reaches quickly.",
-  level_note="Trusted: harness/model (own bencode encoder, SHA-1 from the Go standard library, flat array F), the in-memory storage double. "
+  level_note="Trusted: " + MODEL_TRUST + "; the in-memory storage double. "
              "Bounds: total <= 1 MiB, <= 256 pieces, <= 8 files per layout. No absence claim beyond the explored cases.",
   technique="property-based testing (rapid) against a reference model; metamorphic byte-flip on the verifier",
   rule="rapid-generated torrent layouts (file vectors with boundary-biased lengths, padding files anywhere, piece lengths 1..131072) "
@@ -31,6 +43,35 @@ PROPS = {
    U("c02.geometry", "c02", "TestGeometry",
      "layout -> metainfo.NewInfo -> allocator.Run(mem storage) -> piece.NewPieces: section walk == file walk of F, piece lengths, "
      "CalculateBlocks == non-padding bytes exactly, Write/ReadAt round trip on sub-ranges, verifier metamorphic (flip one byte)",
-     dict(checks=12000, shards=6), dict(checks=1600000, shards=16), min_nontrivial_frac=0.3),
-  ]),
-}
+     Q(12000, 6), T(1600000), min_nontrivial_frac=0.3),
+  ])
+
+P("C03",
+  level_text="Bounded random exploration: generated (layout, read-cache block size, cache capacity, TTL, request history) cases drive the cached "
+             "piece reader that backs every piece message; each returned buffer is compared with the flat model F and a short success is a failure.",
+  level_note="Trusted: " + MODEL_TRUST + ". Component level covers the reader behind SendPiece; the choke/allowed-fast and request-validation "
+             "clauses are decided by the system-level unit when present in the unit list.",
+  technique="property-based testing (rapid) with a reference model (flat byte array)",
+  rule="reads (piece, offset, length<=16 KiB) through cachedpiece.ReadAt over generated layouts, cache block sizes 1..200000 and capacities "
+       "{0, one block, few blocks, huge}; non-trivial = request unaligned to 16 KiB, or crossing a cache block, or on a multi-section piece",
+  assumptions=["in-memory storage never fails, so any error or short read is attributable to the reader"],
+  units=[
+   U("c03.cachedpiece", "c03", "TestCachedPiece",
+     "cachedpiece.ReadAt == F for generated offsets/lengths/cache geometries; cold, warm, evicted and expired cache entries",
+     Q(4000, 8), T(400000), min_nontrivial_frac=0.3),
+  ])
+
+P("C06",
+  level_text="Bounded random exploration of adversarial bencoded info dictionaries (grammar-based mutation of valid layouts) through metainfo.New/NewInfo; "
+             "an accepted description must satisfy the well-formedness predicate and piece construction must terminate under a watchdog with bounded allocation.",
+  level_note="Trusted: " + MODEL_TRUST + ". A hang is detected by a 20 s watchdog (the case is saved and the shard exits at once); "
+             "allocation is measured with runtime.MemStats.TotalAlloc around the parser call.",
+  technique="property-based testing (rapid): grammar mutation of valid inputs + validity predicate + watchdog",
+  rule="valid small layout + 0..3 adversarial field mutations (negative/overflowing/sum-preserving lengths, piece length 0/huge, pieces string +-k, wrong types, "
+       "duplicate/unsorted keys, nesting up to 5M, huge declared strings, both modes, odd private values); non-trivial = >=1 mutation; distinct = case fingerprint",
+  assumptions=["the well-formedness predicate is the one in the property statement; limits (MaxPieces, MaxTorrentSize) are session-level and checked by the session unit"],
+  units=[
+   U("c06.info", "c06", "TestInfo",
+     "metainfo.New / NewInfo on mutated info dictionaries: reject or well-formed; NewPieces/CalculateBlocks terminate; parser allocation <= 64*len+8MiB",
+     Q(20000, 4), T(2000000), min_nontrivial_frac=0.4, env={"VERIF_JOURNAL": "1"}),
+  ])
